@@ -1287,7 +1287,12 @@ func TestVerifRestart(t *testing.T) {
 		if err := json.Unmarshal(raw, &rp); err != nil {
 			t.Fatal(err)
 		}
-		run(rp.Detail.Case.Spec, rp.Detail.Case.Crashes)
+		// the uninterrupted run of the scenario (the reference the predicate
+		// compares with), then the recorded stop schedule
+		run(rp.Detail.Case.Spec, []int{})
+		if len(rp.Detail.Case.Crashes) > 0 {
+			run(rp.Detail.Case.Spec, rp.Detail.Case.Crashes)
+		}
 		return
 	}
 	only := os.Getenv("VERIF_C13_ONLY")
